@@ -34,6 +34,8 @@ for f, args, bools, res, st, what in (
         ('vf_oalt_l', ('a', 'b'), ('h', 'hd'), '(h ? a : (hd ? b : (u32)-1))', '*st == (h ? 1 : 0)', 'optional::alternative on an lvalue'),
         ('vf_ofrom_l', ('a', 'b'), ('h',), '(h ? a : b)', '*st == (h ? 1 : 0)', 'optional::from on an lvalue')):
     C[f] = ([ID(*args), B(*bools), '__CPROVER_is_fresh(st, 4)'], ['*st'], ['__CPROVER_return_value == %s' % res, st, 'n_move[a] == m_nmove[a]', NORM], what + ': the argument is left intact (not moved from)')
+C['vf_vtoopt_l'] = ([ID('a'), B('first'), '__CPROVER_is_fresh(st, 4)'], ['*st'], ['__CPROVER_return_value == (first ? a : (u32)-1)', '*st == (first ? 1 : 0)', NORM], 'variant::to_optional on a (non-const) lvalue variant: the held alternative is copied, the variant is left intact')
+C['vf_vmatch_l'] = ([ID('a'), B('first'), '__CPROVER_is_fresh(st, 4)'], ['*st'], ['__CPROVER_return_value == (first ? a : b)', '*st == (first ? 1 : 0)', NOCOPY, NORM], 'variant::match on a (non-const) lvalue variant: the variant is left intact, nothing is copied by the library')
 C['vf_ocombine_ll'] = ([ID('a', 'b'), B('h1', 'h2'), '__CPROVER_is_fresh(s1, 4) && __CPROVER_is_fresh(s2, 4)'], ['*s1', '*s2'],
                        ['__CPROVER_return_value == (h1 ? a : (h2 ? b : (u32)-1))', '*s1 == (h1 ? 1 : 0) && *s2 == (h2 ? 1 : 0)', NORM], 'optional::combine on two lvalues: both intact')
 C['vf_ocombine_rl'] = ([ID('a', 'b'), B('h1', 'h2'), '__CPROVER_is_fresh(s2, 4)'], ['*s2'],
@@ -126,6 +128,10 @@ def make(tier):
     NOC = '  __CPROVER_assert(c_copy == m_copy, "no value is copied");\n  __CPROVER_assert(c_readmoved == m_readmoved, "no read of a moved-from value");\n  VF_PROBE(); }\n'
     ht = ('void h_tree_trk_build(void){ VF_IN(u32, a); VF_IN(u32, b); VF_IN(u32, c); __CPROVER_assume(a < 7 && b < 7 && c < 7 && a != b && a != c && b != c); u32 bad = vf_tree_trk_build(a, b, c);\n'
           '  __CPROVER_assert((bad & 1u) == 0, "tree(T&&), push_back(T&&), push_back(tree&&): the values are in place");\n' + NOC +
+          'void h_tree_trk_front(void){ VF_IN(u32, a); VF_IN(u32, b); VF_IN(u32, c); __CPROVER_assume(a < 7 && b < 7 && c < 7 && a != b && a != c && b != c); u32 bad = vf_tree_trk_front(a, b, c);\n'
+          '  __CPROVER_assert((bad & 1u) == 0, "push_front(T&&), insert(pos, T&&): the values are in place");\n' + NOC +
+          'void h_tree_trk_front_tree(void){ VF_IN(u32, a); VF_IN(u32, b); __CPROVER_assume(a < 7 && b < 7 && a != b); u32 bad = vf_tree_trk_front_tree(a, b);\n'
+          '  __CPROVER_assert((bad & 1u) == 0, "push_front(tree&&): the subtree is in place");\n' + NOC +
           'void h_tree_trk_move(void){ VF_IN(u32, a); VF_IN(u32, b); __CPROVER_assume(a < 7 && b < 7 && a != b); u32 bad = vf_tree_trk_move(a, b);\n'
           '  __CPROVER_assert((bad & 1u) == 0, "tree(tree&&) takes over value and children");\n' + NOC +
           'void h_tree_trk_pop(void){ VF_IN(u32, a); VF_IN(u32, b); __CPROVER_assume(a < 7 && b < 7 && a != b); u32 bad = vf_tree_trk_pop(a, b);\n'
@@ -136,6 +142,6 @@ def make(tier):
     P.generated['c05_tree_h.c'] = ht
     ut = P.unit('tree', 'tree.cpp', harness=['../C09/harness.c', 'harness.c', 'c05_tree_h.c'], pre=['ghost.h'], inline=True, maxb=32)
     LIST = 'assumed contracts (executable models, props/C09/harness.c): std::__detail::_List_node_base::_M_hook / _M_unhook / _M_transfer / swap (machine code in libstdc++.so)'
-    for nm, what in (('h_tree_trk_build', 'tree(T&&), push_back(T&&), push_back(tree&&): values moved, never copied'), ('h_tree_trk_move', 'tree(tree&&): values moved, never copied'), ('h_tree_trk_pop', 'pop_back: the child is moved out, never copied'), ('h_tree_trk_copy', 'tree copy construction: every value copied exactly once, source intact')):
+    for nm, what in (('h_tree_trk_build', 'tree(T&&), push_back(T&&), push_back(tree&&): values moved, never copied'), ('h_tree_trk_front', 'push_front(T&&), insert(pos, T&&): values moved, never copied'), ('h_tree_trk_front_tree', 'push_front(tree&&): moved, never copied'), ('h_tree_trk_move', 'tree(tree&&): values moved, never copied'), ('h_tree_trk_pop', 'pop_back: the child is moved out, never copied'), ('h_tree_trk_copy', 'tree copy construction: every value copied exactly once, source intact')):
         ut.lemma(nm, cls='B', unwind=3, unwind_files={'harness.c': 10}, mem=24, bound='trees of at most 3 nodes of instrumented values', backends=['sat'], cbmc=['--slice-formula'], timeout=1200, what=what, assumed=[LIST], native=False)
     return P
